@@ -74,7 +74,7 @@ def big_outputs(ctx):
                 txt = s.decode("ascii")
             except UnicodeDecodeError:
                 continue
-            args = ["-s", txt, str(child)] + ([str(big), str(empty)] if where == "out" else [str(empty), str(big)])
+            args = ["-t", "10", "-s", txt, str(child)] + ([str(big), str(empty)] if where == "out" else [str(empty), str(big)])
             want = s in log
             for mode in ("mem", "file"):
                 prefix = None if mode == "mem" else str(d / "c19-bigout")
@@ -90,6 +90,7 @@ def big_outputs(ctx):
                 if v != want:
                     ctx.fail("outputs-verdict", f"outputs ({mode}) = {v}, expected {want}: a {len(log)}-byte log on std{where}, search text "
                              f"{s!r} at offset {log.find(s)}", case)
+                    return              # one is enough (each further one may cost a full time limit)
 
 
 def outputs_cases(ctx, thorough):
